@@ -228,7 +228,7 @@ def run(ctx):
     ctx.assumptions += [
         "translate/gen_optables.py is a parser only (g++ -E text -> syntax trees); every classification is computed in Coq (Tables/OpRows.v, OpCheck.v) from the trees; what the parser does not understand becomes SOther/Other, which no checker accepts",
         "abstract model (Tables/ApiModel.v): tensors, shapes, attribute values, truth of path conditions (is_scalar, empty), the value of a shape expression, Device value guards and kernels are uninterpreted; a Device entry is `guards; shape rule (throws iff the rule throws); kernel on a tensor of that shape` (hypothesis kernels_follow_rules = the structure of device.cc); kernels are deterministic functions of attributes and operand values (random functions: relative to the same draws of the device's generator)",
-        "hypothesis composite_shapes_agree: for Split, BatchSplit, SoftmaxCrossEntropy, SparseSoftmaxCrossEntropy (Tensor function = composite / loop of slices) FWD_SHAPE computes the composite's shape and throws exactly when it throws; these bodies are compared with the reviewed copy coq/Tables/Reviewed.v and tied to the code by the exhaustive two-API sweep of this run",
+        "hypothesis composite_shapes_agree of the abstract model (Split, BatchSplit, SoftmaxCrossEntropy, SparseSoftmaxCrossEntropy: Tensor function = composite / loop of slices): PROVED for the executable shape-rule model Shape/ShapeImpl.v (C04_composite_shapes_agree: FWD_SHAPE rule = shape of the composite, errors included; ShapeImpl is tied to shape_ops.cc / operator_impl.cc by C09's correspondence); the composite shape functions of Tables/CompositeShapes.v are hand-written mirrors of the reviewed bodies coq/Tables/Reviewed.v, which the regenerated bodies are compared with on every run; additionally tied to the code by the exhaustive two-API sweep of this run",
         "hypothesis commutative_ok: functions::add / multiply (Tensor, Tensor) are commutative (the Node API evaluates a scalar first operand as f(b, a)); float addition/multiplication are commutative and shape_ops::scalar_op / elementwise are symmetric in the batch sizes",
         "Device::get_reference_or_default(dev) and tensor_funcs.cc's get_device(dev) name the same device; Parameter::value().shape() == Parameter::shape(); an evaluated operand is a valid tensor (Device::copy_tensor guard)",
         "laziness / memoisation / evaluation order are C05's subject: the model evaluates every node of the program once, in program order",
